@@ -4,7 +4,7 @@ From Coq Require Import Extraction ExtrOcamlBasic.
 From PM Require Import Model.Prelude Model.Domain Model.Constraint Model.BindAll Model.Scheme
   Model.BindMaps Model.DomTable Model.DomString Model.DomMatrix Model.Toposort Model.Automaton Model.Traversal Model.Matchers
   Cert.LabCheck Cert.WfCheck Cert.WinCheck Cert.CharCert Cert.PGCert Cert.UnambCheck Spec.Occ
-  Model.CTree Model.DomPGKeys Model.DomPG Model.DomPGPattern Model.CTreeChar Proofs.PGLawful Proofs.PGSingleGood Proofs.TableLawful Cert.SchemeCheck Cert.TopoCheck Model.ManyGlue.
+  Model.CTree Model.DomPGKeys Model.DomPG Model.DomPGPattern Model.CTreeChar Proofs.PGLawful Proofs.PGSingleGood Proofs.PGAgree Proofs.TableLawful Cert.SchemeCheck Cert.TopoCheck Model.ManyGlue Model.Scopes Model.Parse.
 
 Extraction Language OCaml.
 Set Extraction KeepSingleton.
@@ -17,11 +17,13 @@ Extraction "model.ml"
   (* maps *) aget abind aretain retain_default
   (* maps *) mrun retain_rounds_default mmget_panics
   (* C15 *) hist_okb ts_init ts_next ts_run
+  (* parse *) s_parse m_parse
+  (* scopes *) populate_scopes scope_mismatches pattern_keys match_key_mismatches
   (* engine *) compile pattern_table get_pattern n_patterns run single match_exists naive
   (* certificates *) wf_check arity_ok compute_rank lab_ok compute_lab cert_complete char_entails char_refutes
      atoms_self s_goodb m_goodb s_keys_tight m_keys_tight m_keys_nn slab_ok cert_unamb compute_slab compute_slab_cap accept_vdet empty_keys_at_root empty_scope_closed empty_pattern_keys char_ceqb
   (* trees *) with_children with_pairwise_mutex with_transitive_mutex with_powerset char_tree pg_tree
      pg_conditioned_res pgc_eqb mkey_cmp
   (* specification *) occ_stringb occ_matrixb all_cells_from
-  (* port graphs *) pg_dom pg_opts walk_nodes pgkey_cmp pg_atoms pg_entails pg_refutes pg_constraint_vec pg_cvec_full pg_good_pattern aut_keys_in aut_single_root match_keys_in lines_cover nodes_keyed lines_sound keys_distinct pg_host_wfb
+  (* port graphs *) pg_dom pg_opts walk_nodes pgkey_cmp pg_atoms pg_entails pg_refutes pg_constraint_vec pg_cvec_full pg_good_pattern aut_keys_in aut_single_root match_keys_in lines_cover nodes_keyed lines_sound keys_distinct pg_host_wfb root_linked
   (* domains *) table_dom t_atoms t_reqf string_dom matrix_dom s_cvec m_cvec.
